@@ -119,7 +119,7 @@ type Kernel struct {
 	journal []jop
 	durable map[int]*dinode
 	// Lost: writes dropped from write-back by failed fsyncs (see dataOp.lost)
-	Lost []LostWrite
+	Lost    []LostWrite
 	nsys    int
 	opCount map[string]int
 	used    int64
@@ -847,6 +847,69 @@ func (k *Kernel) ReadFile(path string) ([]byte, bool) {
 		return nil, false
 	}
 	return append([]byte(nil), in.data...), true
+}
+
+// DataDurable reports whether the durable image of the file at path equals its
+// current contents: nothing written to it would be lost by a power failure now
+// (whether because it was never flushed or because a failed fsync dropped it).
+// firstDiff is the first offset at which the two differ (-1: the sizes).
+func (k *Kernel) DataDurable(path string) (ok bool, firstDiff int64) {
+	in, e := k.lookup(atFDCWD, path)
+	if e != 0 || in.isDir {
+		return false, -1
+	}
+	var dur []byte
+	if d := k.durable[in.ino]; d != nil {
+		dur = d.data
+	}
+	n := len(dur)
+	if len(in.data) < n {
+		n = len(in.data)
+	}
+	for i := 0; i < n; i++ {
+		if dur[i] != in.data[i] {
+			return false, int64(i)
+		}
+	}
+	if len(dur) != len(in.data) {
+		return false, -1
+	}
+	return true, 0
+}
+
+// VolatileBlocks lists the blockSize-sized blocks of the file at path whose
+// durable image differs from the current contents (a differing size counts as
+// block -1).
+func (k *Kernel) VolatileBlocks(path string, blockSize int) []int64 {
+	in, e := k.lookup(atFDCWD, path)
+	if e != 0 || in.isDir {
+		return []int64{-1}
+	}
+	var dur []byte
+	if d := k.durable[in.ino]; d != nil {
+		dur = d.data
+	}
+	var out []int64
+	if len(dur) != len(in.data) {
+		out = append(out, -1)
+	}
+	n := len(dur)
+	if len(in.data) < n {
+		n = len(in.data)
+	}
+	for b := 0; b*blockSize < n; b++ {
+		hi := (b + 1) * blockSize
+		if hi > n {
+			hi = n
+		}
+		for i := b * blockSize; i < hi; i++ {
+			if dur[i] != in.data[i] {
+				out = append(out, int64(b))
+				break
+			}
+		}
+	}
+	return out
 }
 
 // ListDir returns the names in a directory, sorted.
